@@ -12,7 +12,10 @@
 //   Simulator::step_reset = edge with the reset asserted around it), then reads every output.
 //   The run starts with one implicit reset step (all inputs 0) unless "noreset" is true.
 // stdout: exactly one line per case
-//   OK {"trace": [["<hex payload>/<hex mask>", ... per output] per cycle], "display": "<$display text>"}
+//   OK {"trace": [["<hex payload>/<hex mask>", ... per output] per cycle], "display": "<$display text>",
+//       "dispatches": n, "compiled_dispatches": k}      (the last two from the C33 swap hook)
+//   (built with --features swap_hook) optional case field "swap_at": n | "never" drives the cfg(veryl_verif) hook verif_swap in
+//   crates/simulator/src/backend/aot_c.rs (whole-comb/whole-event dispatch n is the first to run C code)
 //   ERR <stage> <message>        (parse / analyze / build_ir rejected the program)
 //   PANIC <message>
 use num_bigint::BigUint;
@@ -84,6 +87,19 @@ fn run_case(case: &J, config: &Config) -> Result<J, String> {
         return Err(format!("ERR analyze {}", names.join(",")));
     }
 
+    // C33 hook (crates/simulator/src/backend/aot_c.rs verif_swap): "swap_at": n | "never"
+    #[cfg(feature = "swap_hook")]
+    {
+        use veryl_simulator::backend::aot_c::verif_swap;
+        let at = match &case["swap_at"] {
+            J::Number(n) => Some(n.as_u64().unwrap()),
+            J::String(s) if s == "never" => Some(u64::MAX),
+            _ => None,
+        };
+        verif_swap::set_swap_at(at);
+        verif_swap::reset();
+    }
+
     let sim_ir = build_ir(&ir, top.into(), config).map_err(|e| format!("ERR build_ir {e:?}"))?;
     output_buffer::enable();
     let mut sim = Simulator::new(sim_ir, None);
@@ -153,6 +169,13 @@ fn run_case(case: &J, config: &Config) -> Result<J, String> {
         trace.push(J::Array(row));
     }
     let display = output_buffer::take();
+    #[cfg(feature = "swap_hook")]
+    {
+        use veryl_simulator::backend::aot_c::verif_swap;
+        return Ok(json!({"trace": trace, "display": display,
+                         "dispatches": verif_swap::count(), "compiled_dispatches": verif_swap::swapped()}));
+    }
+    #[allow(unreachable_code)]
     Ok(json!({"trace": trace, "display": display}))
 }
 
